@@ -133,7 +133,7 @@ CHECKS["C17"] = dict(
     engine="membound", category="exploration", design_ref="DESIGN.md 3.17",
     technique="exhaustive kernel x function x length x offset grid and all bounded index operation sequences executed on the real code under AddressSanitizer with std ub_checks",
     text="Every available ISA kernel (scalar, SSE2, AVX2+FMA, AVX-512F, plus the dispatched entry points; private kernels reached by compiling simd.rs with an appended child module) x {dot, sum_squares, l2_sq, dot_and_norms} x length 0..130 x start offset 0..3 on exact-size heap buffers, and every operation sequence of depth 4 (thorough 6) over {add, add duplicate vector, add duplicate id, search, search with k=ef=10000, pre-cancelled search} x dim {1,3,(8),17,130} x M x capacity x metric on HnswVectorIndex, plus HnswBackend runs with overwrites, deletes, forced tombstone compaction, batch search and free-running readers; all compiled with -Zsanitizer=address and debug assertions. Any sanitizer report, ub_check abort or kernel/scalar mismatch is a violation.",
-    note="Trusted: AddressSanitizer + ub_checks as oracle. Cancellation reduced to a pre-cancelled flag; concurrent readers are free-running (not exhaustive); no TSan pass.",
+    note="Trusted: AddressSanitizer + ub_checks as oracle. Cancellation is enumerated at the engine's own cancellation checks through the kyrodb_verif hook; concurrent readers are free-running (not exhaustive), under ASan and in the separate ThreadSanitizer pass.",
 )
 
 
@@ -150,8 +150,8 @@ ADDENDA = {
     "C14": "Request-shape section: every id list of length <= 3 over {1,2,3,absent} (all adjacent / non-adjacent repeat patterns) as BatchDelete(ids), BulkInsert and BulkLoadHnsw from every population of <= 3 documents with max_vectors = 3, followed by a refill that probes the limit. Server level: through the REAL binary a tenant at max_vectors is refused, may overwrite, is admitted after one delete and refused again, on first boot and after each of two restarts (main()'s start-up recount).",
     "C10": "Server level: the REAL binary with authentication on — {no key, unknown, disabled, empty, Bearer unknown} x 9 RPCs must be UNAUTHENTICATED and change nothing; two tenants (one with two keys) using identical local ids and vectors see only their own documents through Query / BulkQuery / Search on first boot and after two restarts, with a tenant added to the key file in between (interceptor, persistent tenant map).",
     "C15": "14 structurally malformed filters are sent bare as BatchDelete{filter}: answered; refused => unchanged; accepted => only documents the engine's reference matcher selects are removed; census after restart equals the live one.",
-    "C16": "Data, deleted fillers and queries come from one pool (same distribution). The heavy-delete route is also measured BEFORE compaction with 30 / 45 / 60 % of the slots tombstoned (held to the 0.80 floor only).",
-    "C17": "Batch shapes: every row-length pattern of <= 3 rows over {dim, dim-1, dim+1, 0} (and a NaN row) through parallel_insert_batch on an empty and a non-empty index, followed by well-formed searches.",
+    "C16": "Data, deleted fillers and queries come from one pool (same distribution); tight cluster-major family above the 1024-vector exhaustive-ef regime; the online route inserts in a shuffled arrival order; the heavy-delete route is also measured BEFORE compaction with 30 / 45 / 60 % of the slots tombstoned (held to the 0.80 floor only). Determinism after a cancelled search: with the --cfg kyrodb_verif hook every cancellation point of every search of a small index grid is enumerated; the same query repeated twice right after the cancelled search must return exactly the baseline answer.",
+    "C17": "Cancellation at every cancellation point (hook-enumerated) under AddressSanitizer. Free-running ThreadSanitizer pass (instrumented std) over HnswBackend / TieredEngine scenarios as a complementary, non-exhaustive detector. Batch shapes: every row-length pattern of <= 3 rows over {dim, dim-1, dim+1, 0} (and a NaN row) through parallel_insert_batch on an empty and a non-empty index, followed by well-formed searches.",
     "C18": "On the one-step frontier (rows that are safe or violate exactly one condition) every single deviation of a remaining setting (65 deviations covering all other configuration fields, incl. http_host loopback / non-loopback) x three routes; every row additionally as environment overrides on top of the four configuration templates shipped in the repository. Server level: the REAL binary launched per (environment, violated condition) x route must exit non-zero before its port opens; safe baselines must start.",
     "C19": "Concurrent clause: 342 programs (6 configurations x 3 warm-up prefixes x 19 thread shapes of 2-3 callers) on the real RateLimiter, every schedule with <= 2 (3) preemptions under ksched; after join admitted <= burst + rate x measured interval per tenant and globally, tokens left in every bucket equal capacity - admitted up to the refill the interval allows, and a refused call implies an exhausted budget.",
 }
@@ -220,7 +220,7 @@ def main():
         "setup_cmd": "bin/setup",
         "hooks": {
             "guard": "kyrodb_verif",
-            "enable": "RUSTFLAGS='--cfg kyrodb_verif' is reserved; at present no source hook exists: parking_lot is replaced through [patch.crates-io] in /verif/harness (pl-shim), the server binary is compiled in-process by build.rs inclusion, and file system / clock / randomness are owned by the LD_PRELOAD shim /verif/shim/kvshim.so",
+            "enable": "--cfg kyrodb_verif (set in /verif/membound/.cargo/config.toml rustflags, the AddressSanitizer workspace): compiles engine/src/verif_hooks.rs and the guarded call in ann_backend::cancellation_requested(), which lets the harness raise a search's cancellation flag at its n-th cancellation point (C17 'cancellation at any point', C16 determinism after a cancelled search). Everything else needs no source hook: parking_lot is replaced through [patch.crates-io] in /verif/harness (pl-shim), the server binary is compiled in-process by build.rs inclusion, and file system / clock / randomness are owned by the LD_PRELOAD shim /verif/shim/kvshim.so",
             "baseline_off_cmd": "cd /repo && cargo test --workspace --no-fail-fast --offline",
             "source_commits": hooks_commits,
             "add_only": True,
